@@ -23,7 +23,7 @@ func ruleOutputGate(rulePrefix string) func(p *Prog, r *Result) {
 				return false, "the result is not the accumulated list of outputs: " + res.String()
 			}
 			info := pr.carried[res.N]
-			if info.Init == nil || !(info.Init.Op == "lit" && len(info.Init.Args) == 0) {
+			if info.Init == nil || !info.Init.IsEmptyList() {
 				return false, "the result list does not start empty"
 			}
 			n := 0
@@ -39,7 +39,7 @@ func ruleOutputGate(rulePrefix string) func(p *Prog, r *Result) {
 					return false, "unexpected update of the result list: " + v.String()
 				}
 				ap := v.Args[1]
-				if ap.IsNil() || (ap.Op == "lit" && len(ap.Args) == 0) {
+				if ap.IsNil() || ap.IsEmptyList() {
 					continue // nothing emitted on this iteration
 				}
 				if ap.Op != "lit" || len(ap.Args) != 1 {
@@ -533,7 +533,7 @@ func ruleC11Select(p *Prog, r *Result) {
 		for outs != nil && outs.Op == "carried" {
 			outs = pr.carried[outs.N].Init
 		}
-		if outs != nil && outs.Op == "lit" && len(outs.Args) == 0 {
+		if outs.IsEmptyList() {
 			return true, ""
 		}
 		return false, "an unmarked map is selected as an output"
